@@ -132,13 +132,24 @@ def ensure_universe(force=False):
     tag = "export"
     os.makedirs(os.path.join(WORK, tag), exist_ok=True)
     cfg = os.path.join(WORK, tag, "MC_Export.cfg")
-    write_cfg(cfg, {"UsizeBytes": 8, "ZstUnit": 1, "VLevel": 1, "TypeSet": "all"})
+    write_cfg(cfg, {"UsizeBytes": 8, "ZstUnit": 1, "TupleRangeConstTrue": False, "VLevel": 1, "TypeSet": "all"})
     r = tlc("MC_Export", cfg, tag, workers=1, timeout=600)
     if not r.json_lines:
         raise ToolError("universe export failed:\n" + r.out[-3000:])
     raw = os.path.join(WORK, tag, "export.out")
     open(raw, "w").write(r.out)
     p = sh(["python3", os.path.join(ROOT, "gen", "gen_universe.py"), raw, HARNESS, uni], check=True)
+    log(p.stdout.strip())
+    # the generated universe of C05 (spec/Derive.tla grammar)
+    cfg = os.path.join(WORK, tag, "MC_Export_g.cfg")
+    write_cfg(cfg, {"UsizeBytes": 8, "ZstUnit": 1, "TupleRangeConstTrue": False, "VLevel": 1, "TypeSet": "grammar"})
+    r = tlc("MC_Export", cfg, tag, workers=1, timeout=600)
+    if not r.json_lines:
+        raise ToolError("grammar export failed:\n" + r.out[-3000:])
+    raw = os.path.join(WORK, tag, "export_g.out")
+    open(raw, "w").write(r.out)
+    p = sh(["python3", os.path.join(ROOT, "gen", "gen_universe.py"), raw, HARNESS,
+            os.path.join(ROOT, "gen", "grammar.json"), "grammar"], check=True)
     log(p.stdout.strip())
     open(stamp, "w").write(h + "\n")
     return uni
@@ -174,7 +185,7 @@ def harness_facts(uni):
     return facts, npath
 
 
-def replay(cases, tag, sub="replay"):
+def replay(cases, tag, sub="replay", binpath=None):
     """Run the cases (list of dicts with at least key) through the real library.
     A case that kills the process (abort on allocation failure, double free, SIGSEGV)
     is recorded as {"abort": <status>} and the run continues after it."""
@@ -186,7 +197,7 @@ def replay(cases, tag, sub="replay"):
     obs = [None] * len(cases)
     start = 0
     while start < len(cases):
-        p = sh([BIN, sub, path, str(start)], timeout=3000)
+        p = sh([binpath or BIN, sub, path, str(start)], timeout=3000)
         last_started = None
         for line in p.stdout.splitlines():
             if not line.strip():
